@@ -1,7 +1,83 @@
+//! C16: built WITHOUT the `enable` feature every API call is a no-op; no property closure is ever
+//! invoked; no context exists; no command ring is ever created.
+use fastrace::collector::Config;
+use fastrace::local::LocalCollector;
 use fastrace::prelude::*;
+use std::future::Future;
+use std::task::{Context, Poll, Waker};
+
+static mut CALLS: u32 = 0;
+fn kv() -> (&'static str, &'static str) {
+    unsafe { CALLS += 1 };
+    ("k", "v")
+}
+fn kvs() -> [(&'static str, &'static str); 1] {
+    unsafe { CALLS += 1 };
+    [("k", "v")]
+}
 
 #[kani::proof]
-fn smoke_disabled() {
-    let s = Span::root("r", SpanContext::new(TraceId(kani::any()), SpanId(kani::any())));
-    assert!(SpanContext::from_span(&s).is_none());
+#[kani::unwind(3)]
+fn disabled_span_api() {
+    let ctx = SpanContext::new(TraceId(kani::any()), SpanId(kani::any())).sampled(kani::any());
+    let root = Span::root("root", ctx).with_property(kv).with_properties(kvs);
+    let child = Span::enter_with_parent("c", &root);
+    let multi = Span::enter_with_parents("m", [&root, &child]);
+    let lp = Span::enter_with_local_parent("lp");
+    root.add_property(kv);
+    root.add_properties(kvs);
+    root.add_event(Event::new("e").with_property(kv).with_properties(kvs));
+    assert!(SpanContext::from_span(&root).is_none() && SpanContext::from_span(&multi).is_none());
+    assert!(root.elapsed().is_none() && lp.elapsed().is_none());
+    root.cancel();
+    let g = root.set_local_parent();
+    assert!(SpanContext::current_local_parent().is_none());
+    drop(g);
+    drop((child, multi, lp, root));
+    assert!(unsafe { CALLS } == 0, "a property closure was invoked in a build without `enable`");
+    assert!(unsafe { rtrb::RINGS_CREATED } == 0, "a command queue was created in a build without `enable`");
+    kani::cover!(true);
+}
+
+#[kani::proof]
+#[kani::unwind(3)]
+fn disabled_local_api() {
+    let root = Span::root("root", SpanContext::random());
+    let _g = root.set_local_parent();
+    let l = LocalSpan::enter_with_local_parent("l").with_property(kv).with_properties(kvs);
+    LocalSpan::add_property(kv);
+    LocalSpan::add_properties(kvs);
+    LocalSpan::add_event(Event::new("e"));
+    drop(l);
+    let c = LocalCollector::start();
+    let _l2 = LocalSpan::enter_with_local_parent("l2");
+    let spans = c.collect();
+    let recs = spans.to_span_records(SpanContext::new(TraceId(1), SpanId(2)));
+    assert!(recs.is_empty(), "to_span_records returned records in a build without `enable`");
+    root.push_child_spans(spans);
+    assert!(unsafe { CALLS } == 0, "a property closure was invoked in a build without `enable`");
+    assert!(unsafe { rtrb::RINGS_CREATED } == 0);
+    kani::cover!(true);
+}
+
+struct Ready1;
+impl Future for Ready1 {
+    type Output = u8;
+    fn poll(self: std::pin::Pin<&mut Self>, _: &mut Context<'_>) -> Poll<u8> {
+        Poll::Ready(1)
+    }
+}
+
+#[kani::proof]
+#[kani::unwind(3)]
+fn disabled_future_api() {
+    let f = Ready1.in_span(Span::root("r", SpanContext::random()));
+    let mut f = std::pin::pin!(f);
+    let mut cx = Context::from_waker(Waker::noop());
+    assert!(f.as_mut().poll(&mut cx) == Poll::Ready(1));
+    let g = Ready1.enter_on_poll("p");
+    let mut g = std::pin::pin!(g);
+    assert!(g.as_mut().poll(&mut cx) == Poll::Ready(1));
+    assert!(unsafe { rtrb::RINGS_CREATED } == 0);
+    kani::cover!(true);
 }
